@@ -417,7 +417,7 @@ FN_IOW = "payload:IOBasePayload.write_with_length"
 
 
 @unit("C02", "payload.file_body_complete", functions=[f"{PAYLOAD}:IOBasePayload.write_with_length",
-                                                      f"{PAYLOAD}:IOBasePayload._should_stop_writing"])
+                                                      f"{PAYLOAD}:IOBasePayload._should_stop_writing"], also=("C04",))
 def payload_file_body(u: U):
     """IOBasePayload.write_with_length (file, pipe, socket-file and text-file bodies of requests and responses): every
     chunk read is written - whole, or cut at the announced length - in order, and the copy ends only at end of file
@@ -484,7 +484,10 @@ def payload_file_body(u: U):
         u.check("C02.payload.chunk_written_once_in_order",
                 len(new) == 1 and tbool_(SBytes.of(new[0]).prov_eq(ch.slice(0, want))) if len(new) == 1 else False,
                 "each chunk read from the file is handed to the writer exactly once, whole or cut at what is left of "
-                "the announced length")
+                "the announced length",
+                # C04 (truthful framing): never more body bytes than the announced Content-Length - a text file is read
+                # by characters and re-encoded, so a chunk can be longer than the bytes that were asked for
+                also_as=("C04.frame.file_body_cut_at_announced_length",))
 
     def tbool_(x):
         return x
@@ -497,6 +500,9 @@ def payload_file_body(u: U):
     if not out.ok:
         return
     L = u.last_locals.get(FN_IOW, {})
+    if head and len(writes) > head["nwrites"]:
+        # the iteration that ended the copy (it leaves through `return`, not through the back edge)
+        at_back(L)
     last = L.get("chunk")
     at_eof = blen(last) == 0 if last is not None else False
     u.check("C02.payload.file_body_complete",
